@@ -342,9 +342,18 @@ func mutQuery(r *rand.Rand, q []kv, numParams []string, token bool) (string, []k
 		ks = append(ks, k)
 	}
 	sort.Strings(ks)
+	isNum := map[string]bool{}
+	for _, np := range numParams {
+		isNum[np] = true
+	}
 	for _, k := range ks {
 		k := k
 		add("missing-"+k, plain(func() []kv { return dropQ(q, k) }))
+		if isNum[k] {
+			// numeric parameters have their own value classes below (an adversarial
+			// string such as "-1" would otherwise alias <param>-negative)
+			continue
+		}
 		add("empty-"+k, plain(func() []kv { return setQ(q, k, "") }))
 		add("huge-"+k, plain(func() []kv { return setQ(q, k, hugeString(hugeURL)) }))
 		add("adv-"+k, plain(func() []kv { return setQ(q, k, c13Adv(r)) }))
@@ -1887,7 +1896,7 @@ func c13Batches(p *runParams) (n int64, perBatch int) {
 		// fatal candidates: a bounded exploration, deliberately small per child
 		return int64(p.pick(192, 384)), 48
 	}
-	return int64(p.pick(1200, 20000)), 48
+	return int64(p.pick(1200, 26000)), 48
 }
 
 func TestC13(t *testing.T) {
